@@ -247,7 +247,7 @@ CHECKS = {
         "level_text": ("Generated builds + damage (including a stage with >1024 wounds: 1100-2100 missing dirs/symlinks or damaged small files, and "
                        "damage only in the last file; and one file of 66-96 MiB - more blocks than the wound channel has slots - followed by a small one) x consumer (fail-fast, wounds file writable/unwritable, healer with good/partial/missing "
                        "archive, printer) x cancellation instant (before start, inside the n-th consumer callback, after a drawn delay, never) x "
-                       "GOMAXPROCS. Oracles: Validate returns on the calling goroutine within the watchdog (a hang is confirmed by a second run "
+                       "GOMAXPROCS; in one case of eight the signature lacks its last 1-3 block hashes (a signature file cut at a message boundary reads back without error), so the file worker fails. Oracles: Validate returns on the calling goroutine within the watchdog (a hang is confirmed by a second run "
                        "in a fresh process with a doubled deadline and goroutine stacks inside wharf); if fail-fast returns nil, an independent "
                        "observer says the directory is identical to the signed build."),
         "level_note": "interleavings are sampled; goroutines left inside wharf/pwr after return are counted in the evidence (coverage.extra), not judged.",
@@ -293,7 +293,8 @@ CHECKS = {
                        "WantSave bit patterns; 1/6 of the messages have every field at its default (0 bytes on the wire) and in 3/4 of the cases "
                        "the reader reuses one message object per type, as the patcher does; in half of the cases the caller looks for a checkpoint only "
                        "before some messages (drawn pattern), so messages are read between the arrival of the source checkpoint and the pop; in a quarter the reader is rewound once with Resume(nil) after k messages and reads "
-                       "the sequence again (checkpoints popped before and after must all work); in a third the reader a checkpoint is handed to has already read 1-3 messages, as the patcher's has. Oracles: read-back proto.Equal to what was written, then io.EOF; every popped checkpoint is "
+                       "the sequence again (checkpoints popped before and after must all work); in a third the reader a checkpoint is handed to has already read 1-3 messages, as the patcher's has; in a fifth the finished writer is closed a second time and two more streams "
+                       "with the same setting are then written at the same time, interleaved like WritePatch's patch and signature wires, and each must read back as its own sequence. Oracles: read-back proto.Equal to what was written, then io.EOF; every popped checkpoint is "
                        "gob-encoded, decoded, handed to a brand-new reader over the same bytes, which must yield exactly messages i.. and EOF, "
                        "where i is the index of the first message not yet returned at pop time (including i == number of messages)."),
         "level_note": "decompressor internals (savior) are exercised only through wharf's reader.",
